@@ -1,23 +1,26 @@
 #!/bin/bash
 # Confirms a seeded defect produced by a sub-agent in its scratch worktree:
-#   tools/confirm_seed.sh <worktree> <patch> <demo.rs> [<crate -p name>] [<tests dir relative to worktree>]
-# 1. demo passes without the patch; 2. with the patch the existing tests of that crate pass
-# (demo not present); 3. with the patch the demo fails. Prints one summary line.
-WT=$1; PATCH=$2; DEMO=$3; PKG=${4:-deadpool}; TDIR=${5:-tests}
+#   tools/confirm_seed.sh <worktree> <patch> <demo.rs> [<package>] [<tests dir>] [<cargo feature args>]
+# 1. demo passes without the patch; 2. the existing tests of that package that pass without
+# the patch still pass with it (demo not present); 3. with the patch the demo fails.
+WT=$1; PATCH=$2; DEMO=$3; PKG=${4:-deadpool}; TDIR=${5:-tests}; FEAT=${6:-}
+[ "$PKG" = deadpool ] && [ -z "$FEAT" ] && FEAT="--features rt_tokio_1,serde"
 export CARGO_TARGET_DIR=/tmp/seed/target CARGO_NET_OFFLINE=true
 cd "$WT" || exit 2
-git checkout -q -- . ; rm -f $TDIR/seeded_demo*.rs
+git checkout -q -- . ; rm -f $TDIR/seeded_demo*.rs; mkdir -p $TDIR
 name=seeded_demo_$(basename "$PATCH" .diff | sed 's/patch_//')
-feat=""; [ "$PKG" = deadpool ] && feat="--features rt_tokio_1,serde"
+failed_set() { grep -E "^test .* FAILED" | sort -u; }
+base=$(cargo test --offline -p $PKG $FEAT --no-fail-fast 2>&1 | failed_set)
 cp "$DEMO" $TDIR/$name.rs
-without=$(cargo test --offline -p $PKG $feat --test $name 2>&1 | grep -E "^test result" | tail -1 | cut -c1-40)
+without=$(cargo test --offline -p $PKG $FEAT --test $name 2>&1 | grep -E "^test result" | tail -1 | cut -c1-40)
 rm -f $TDIR/$name.rs
 if ! git apply "$PATCH"; then echo "$(basename $WT) $(basename $PATCH): PATCH DOES NOT APPLY"; exit 1; fi
-suite=$(cargo test --offline -p $PKG $feat --no-fail-fast 2>&1)
+suite=$(cargo test --offline -p $PKG $FEAT --no-fail-fast 2>&1)
 compiled=$(echo "$suite" | grep -c "could not compile")
-failed=$(echo "$suite" | grep -E "^test .* FAILED" | grep -v -E "^test (basic|generic_client|prepare_typed_cached|prepare_typed_error|recycling_methods|statement_cache_clear|statement_caches_clear|transaction_1|transaction_2|transaction_builder|transaction_pipeline) " | tr '\n' ';')
+with=$(echo "$suite" | failed_set)
+newfail=$(comm -13 <(echo "$base") <(echo "$with") | tr '\n' ';')
 passed=$(echo "$suite" | grep -E "^test .* ok$" | wc -l)
 cp "$DEMO" $TDIR/$name.rs
-withp=$(cargo test --offline -p $PKG $feat --test $name 2>&1 | grep -E "^test result" | tail -1 | cut -c1-46)
-git checkout -q -- . ; rm -f $TDIR/seeded_demo*.rs
-echo "$(basename $WT) $(basename $PATCH): compile_fail=$compiled | demo without patch: $without | existing tests with patch: $passed ok, failed: [$failed] | demo with patch: $withp"
+withp=$(cargo test --offline -p $PKG $FEAT --test $name 2>&1 | grep -E "^test result" | tail -1 | cut -c1-46)
+git checkout -q -- . ; rm -f $TDIR/seeded_demo*.rs; git clean -fdq $TDIR 2>/dev/null
+echo "$(basename $WT) $(basename $PATCH): compile_fail=$compiled | demo without patch: $without | existing tests with patch: $passed ok, newly failing: [$newfail] | demo with patch: $withp"
